@@ -156,6 +156,21 @@ CLAIMED['C20'] = dict(
          'wrote - third-party code, see DESIGN.md).',
     design='6/C20')
 
+CLAIMED['C14'] = dict(
+    level='exploration',
+    text='Seeded search over generated state-function programs (next/Retry/Finish/self/non-callable/raise, cleanup '
+         'returning none/chain/non-callable/raising, maxloops 2..10) with a cycling task and a commanding task issuing '
+         'start(state, cleanup, attributes)/stop between any two steps (state functions yield to the scheduler; line '
+         'events of statemachine.py). Trace invariants: cycle never raises and is bounded, init flag exactly on the first '
+         'call after each transition, every cleanup at most once, a cleanup sequence neither interrupted nor abandoned, '
+         'starts take effect in issue order, the last stop/start wins with exactly its attributes once things are quiet. '
+         'Second world: a HasStates Drivable in a real node driven over the wire (busy status from the acknowledged '
+         'change until the run ends, final/stopped/error status afterwards).',
+    note='Trusted: simulation kernel, harness state functions, the transition hook as observation point. Module world: '
+         'busy/final-status rules are judged for runs started on an idle machine without overlapping requests. Known '
+         'finding: stop racing with the natural end leaves the status at "stopping".',
+    design='6/C14')
+
 NOT_APPLICABLE = {
     'C01': 'pure function of (datatype, candidate, previous) - no schedule, clock, I/O or fault dimension for a simulator to decide',
     'C02': 'pure round-trip law over (datatype, value) - no schedule, clock, I/O or fault dimension',
